@@ -69,6 +69,10 @@ func (s *Sources) Sort() {
 	sort.Slice(s.Files, func(i, j int) bool {
 		return s.getFileName(s.Files[i]) > s.getFileName(s.Files[j])
 	})
+	// The included JavaScript files are written in this order as well.
+	sort.SliceStable(s.JSFiles, func(i, j int) bool {
+		return s.JSFiles[i].Path < s.JSFiles[j].Path
+	})
 }
 
 func (s *Sources) getFileName(file *ast.File) string {
